@@ -5,8 +5,9 @@
    [reachable s] quantifies over EVERY finite action list from the empty ledger: any number of concurrent create /
    revert / metadata requests (dry runs, idempotency keys, references included), any interleaving of their lock,
    balance-read, tx-id, chaining, batch hand-off and completion steps, any batch composition and persistence
-   latency, store failures and crashes at every point. *)
-From FL Require Import Engine.Model Engine.Spec Engine.E4Base Engine.E4Inv Engine.E4Steps Engine.E4Resume Engine.E4Cor.
+   latency, store failures and crashes at every point, and cancellation of any request's context at any point
+   ([ACancel]; a request parked in the wait for its account locks may then give up: [AResumeCancelled]). *)
+From FL Require Import Engine.Model Engine.Spec Engine.E4Base Engine.E4Inv Engine.E4Steps Engine.E4Resume Engine.E4Cor Engine.E4Cancel.
 Open Scope Z_scope.
 
 (* the committed history is serially valid: replaying the persisted log in order, every entry [e] satisfies
@@ -37,6 +38,31 @@ Print Assumptions C02_no_double_spend.
 Theorem C02_invariant : forall s, reachable s -> e4_Inv s.
 Proof. exact e4_reachable_inv. Qed.
 Print Assumptions C02_invariant.
+
+(* ---- cancellation of a request that waits for its account locks ---------------------------------------------- *)
+(* a cancelled waiter that was never granted leaves the lock table untouched and only disappears from the queue *)
+Theorem C02_cancelled_waiter_gives_up_nothing : forall s t s' th,
+  reachable s -> get_thread (threads s) t = Some th -> t_granted th = false ->
+  step s (AResumeCancelled t) = Some s' ->
+  v_locks s' = v_locks s /\ v_queue s' = remove_nat t (v_queue s).
+Proof. exact e4_cancelled_waiter_gives_up_nothing. Qed.
+Print Assumptions C02_cancelled_waiter_gives_up_nothing.
+
+(* a cancelled waiter that was granted meanwhile gives the grant back: no lock-table entry of [t] remains
+   (uses the queue-hygiene invariant [e4_QInv] of Engine/E4Cancel.v: a granted intent is no longer queued, and the
+   FIFO pass that follows the release only grants queued intents) *)
+Theorem C02_cancelled_grant_is_released : forall s t s' th,
+  reachable s -> get_thread (threads s) t = Some th -> t_granted th = true ->
+  step s (AResumeCancelled t) = Some s' ->
+  forall h, In h (v_locks s') -> fst (fst h) <> t.
+Proof. exact e4_cancelled_grant_is_released. Qed.
+Print Assumptions C02_cancelled_grant_is_released.
+
+(* the lock-queue hygiene invariant: no duplicates in the queue; every queued tid is a thread parked at [PEnqueued]
+   without a grant; a thread that has not reached the locker has no grant *)
+Theorem C02_queue_invariant : forall s, reachable s -> e4_QInv s.
+Proof. exact e4_reachable_qinv. Qed.
+Print Assumptions C02_queue_invariant.
 
 (* ---- before the repair ------------------------------------------------------------------------------------ *)
 (* [e4_resume_early] is [resume] with the account locks given back at the step that follows the grant
@@ -75,3 +101,47 @@ Example C02_crash_schedule :
   | None => false
   end = true.
 Proof. exact e4_crash_check. Qed.
+
+(* the race with a cancelled loser: 1 locks, 2 queues, 2 is cancelled and gives up while waiting
+   ([RErr ELockCancelled]), 1 completes: disk = funding + one transfer, serially valid, lock table and queue empty *)
+Example C02_cancel_race :
+  match run init e4_cancel_acts with
+  | Some s => e4_sv_b (persisted s) && Nat.eqb (length (persisted s)) 2 &&
+              (balance_of (persisted s) e4_alice =? 0) &&
+              e4_nil (v_locks s) && e4_nil (v_queue s) &&
+              match e4_resp s 1%nat, e4_resp s 2%nat with
+              | Some (ROk (Some 1%nat)), Some (RErr ELockCancelled) => true
+              | _, _ => false
+              end
+  | None => false
+  end = true.
+Proof. exact e4_cancel_check. Qed.
+
+(* 1 completes and unlocks first, which grants 2 (flag + the only table entry); then 2 is cancelled and takes the
+   ctx.Done() branch: the grant is given back, nothing of 2 is on disk or in the batcher *)
+Example C02_cancel_race_granted :
+  match run init e4_cancel_granted_pre, run init e4_cancel_granted_acts with
+  | Some s0, Some s =>
+      match get_thread (threads s0) 2%nat with Some th => t_granted th | None => false end &&
+      match v_locks s0 with [(2%nat, _, _)] => true | _ => false end && e4_nil (v_queue s0) &&
+      e4_sv_b (persisted s) && Nat.eqb (length (persisted s)) 2 &&
+      (balance_of (persisted s) e4_alice =? 0) &&
+      forallb (fun e => negb (Nat.eqb (e_owner e) 2)) (persisted s) &&
+      e4_nil (v_locks s) && e4_nil (v_queue s) && e4_nil (v_pending s) &&
+      match v_batch s with None => true | Some _ => false end &&
+      match e4_resp s 1%nat, e4_resp s 2%nat with
+      | Some (ROk (Some 1%nat)), Some (RErr ELockCancelled) => true
+      | _, _ => false
+      end
+  | _, _ => false
+  end = true.
+Proof. exact e4_cancel_granted_check. Qed.
+
+(* granted AND cancelled: the other branch of the select ([AResume 2]) is enabled too and proceeds as usual *)
+Example C02_cancel_race_other_branch :
+  match run init (e4_cancel_granted_pre ++ [ACancel 2%nat] ++ e4_resumes 2%nat 5 ++ e4_resumes 1%nat 1) with
+  | Some s => e4_sv_b (persisted s) && Nat.eqb (length (persisted s)) 2 && e4_nil (v_locks s) && e4_nil (v_queue s) &&
+              match e4_resp s 2%nat with Some (RErr EInsufficient) => true | _ => false end
+  | None => false
+  end = true.
+Proof. exact e4_cancel_granted_other_branch. Qed.
